@@ -10,6 +10,7 @@ import (
 	"sync"
 	"sync/atomic"
 	"testing"
+	"time"
 
 	"pgregory.net/rapid"
 
@@ -429,7 +430,11 @@ func TestDepth(t *testing.T) {
 	var mu sync.Mutex
 	n := 0
 	parallel(len(work), func(i int) {
+		t0 := time.Now()
 		evaluate(work[i], col.report)
+		if d := time.Since(t0); d > 2*time.Second {
+			t.Logf("slow input: %s %v noMain=%v: %v", work[i].kind, work[i].variants, work[i].noMain, d)
+		}
 		mu.Lock()
 		n++
 		mu.Unlock()
